@@ -31,6 +31,10 @@ CONSTANTS
     D, MaxR, Start0, ErrMode, Reorg,
     Precond, FKinds, Emit,
     AllowBad,     \* generate inadmissible events?
+    GapSet,       \* Extend(k), k \in GapSet: a run of k eventless blocks on top of the head in ONE step
+                  \* (k taken from the boundaries of the code's constants: depth-1, depth, depth+1,
+                  \* request range + 1); {} = no such steps
+    MaxRuns,      \* at most this many runs in a tree
     MinForkNum,   \* forks start and the head switches only at blocks with at least this number (0: anywhere)
     SyncFrom,     \* Sync is called only for heads with at least this number (0: any); both shape
                   \* long chains cheaply: a linear prefix, forks and syncs near the top
@@ -47,8 +51,11 @@ vars == <<blk, canon, st, sb, stale, ok, tag, last, hist>>
 (* rel: where the stored events sit relative to the rollback target block (-1 just below, 0 exactly
    at it, 1 just above), for calls that roll back;
    bx: a range of the call holds an inadmissible event at or before an admissible one (an
-   implementation that gives up on the rest of a batch shows only then) *)
-NoTag == [rb |-> FALSE, gap |-> FALSE, nr |-> 0, k |-> "none", at |-> 0, rel |-> {}, bx |-> FALSE]
+   implementation that gives up on the rest of a batch shows only then);
+   gap: class of the number of skipped blocks (0, 1 = some, the exact value when it is depth-1,
+   depth or depth+1, 99999 when it exceeds the request range); off: the position had left the
+   canonical chain before the call *)
+NoTag == [rb |-> FALSE, gap |-> 0, off |-> FALSE, nr |-> 0, k |-> "none", at |-> 0, rel |-> {}, bx |-> FALSE]
 
 (* history entries; a sync entry carries the committed database state the spec predicts after the
    call (the replay continues with a concrete fault that produces it) *)
@@ -57,7 +64,7 @@ NoPost == [synced |-> NoRow, stored |-> <<>>]
 PostOf(s) == [synced |-> s.synced, stored |-> SetToSeq(s.stored)]
 
 Init ==
-    /\ blk = << [num |-> 0, par |-> -1, evs |-> {}] >>
+    /\ blk = << [num |-> 0, par |-> -1, evs |-> {}, len |-> 1] >>
     /\ canon = 1
     /\ st = St(NoRow, {})
     /\ sb = 0 /\ stale = FALSE /\ ok = TRUE /\ tag = NoTag
@@ -69,7 +76,7 @@ NumEvents(b) == Cardinality({x \in DOMAIN b : b[x].evs # {}})
 BranchKeys(b, p) == UNION {b[x].evs : x \in AncSelf(b, p)}
 
 Mine(p, ev) ==
-    /\ Len(blk) < MaxBlocks
+    /\ Cardinality({x \in DOMAIN blk : blk[x].len = 1}) < MaxBlocks
     /\ p \in AncSelf(blk, canon)
     /\ blk[p].num < MaxNum
     /\ p # canon => blk[p].num >= MinForkNum
@@ -77,13 +84,23 @@ Mine(p, ev) ==
                   /\ (ev # Bad => ev \notin BranchKeys(blk, p))
                   (* keys are interchangeable: use them in order *)
                   /\ \A i \in DOMAIN KeySeq : (ev = KeySeq[i] /\ i > 1) => \E x \in DOMAIN blk : KeySeq[i - 1] \in blk[x].evs
-    /\ LET nb == Append(blk, [num |-> blk[p].num + 1, par |-> p, evs |-> IF ev = "" THEN {} ELSE {ev}]) IN
+    /\ LET nb == Append(blk, [num |-> blk[p].num + 1, par |-> p, evs |-> IF ev = "" THEN {} ELSE {ev}, len |-> 1]) IN
        /\ Cardinality(Leaves(nb)) <= MaxLeaves
        /\ blk' = nb
     /\ canon' = Len(blk) + 1
     /\ last' = H("mine", p, ev, "none", 0, NoPost)
     /\ hist' = Append(hist, last')
     /\ tag' = NoTag
+    /\ UNCHANGED <<st, sb, stale, ok>>
+
+(* a run of k eventless blocks on top of the head, offered (or not) only as a whole: a large gap *)
+Extend(k) ==
+    /\ Cardinality({x \in DOMAIN blk : blk[x].len > 1}) < MaxRuns
+    /\ blk' = Append(blk, [num |-> blk[canon].num + k, par |-> canon, evs |-> {}, len |-> k])
+    /\ canon' = Len(blk) + 1
+    /\ tag' = NoTag
+    /\ last' = H("ext", k, "", "none", 0, NoPost)
+    /\ hist' = Append(hist, last')
     /\ UNCHANGED <<st, sb, stale, ok>>
 
 Switch(b) ==
@@ -95,8 +112,8 @@ Switch(b) ==
     /\ tag' = NoTag
     /\ UNCHANGED <<blk, st, sb, stale, ok>>
 
-OnBranch == sb = 0 \/ sb \in AncSelf(blk, canon)
-DepthOK  == sb = 0 \/ blk[sb].num - blk[LCA(blk, sb, canon)].num <= D
+OnBranch == sb = 0 \/ IsAnc(blk, sb, canon)
+DepthOK  == sb = 0 \/ NumOf(blk, sb) - NumOf(blk, LCA(blk, sb, canon)) <= D
 NextOK   == blk[canon].num <= st.synced.num + 1
 PreOK ==
     CASE Precond = "depth" -> DepthOK
@@ -108,6 +125,12 @@ PreOK ==
 SbAfter(prev, s) == IF s.synced.hash >= 1 THEN s.synced.hash ELSE CanonAt(blk, prev, s.synced.num)
 RECURSIVE SbFold(_, _, _)
 SbFold(prev, seq, i) == IF i > Len(seq) THEN prev ELSE SbFold(SbAfter(prev, seq[i]), seq, i + 1)
+
+GapClass ==
+    LET sk == blk[canon].num - st.synced.num - 1 IN
+    IF ~st.synced.has \/ sk <= 0 THEN 0
+    ELSE IF sk \in {D - 1, D, D + 1} THEN sk
+    ELSE IF sk > MaxR THEN 99999 ELSE 1
 
 (* rollback due?  how many ranges? *)
 Info ==
@@ -133,8 +156,8 @@ Sync(f, info) ==
        IN /\ st' = Final(st, r)
           /\ ok' = (C15_Failed(blk, canon, Start0, states) = {})
           /\ sb' = SbFold(sb, r.seq, 1)
-          /\ stale' = (sb' # 0 /\ sb' \notin AncSelf(blk, canon))
-          /\ tag' = [rb |-> info.rb, gap |-> st.synced.has /\ blk[canon].num > st.synced.num + 1,
+          /\ stale' = (sb' # 0 /\ ~IsAnc(blk, sb', canon))
+          /\ tag' = [rb |-> info.rb, gap |-> GapClass, off |-> ~OnBranch,
                      nr |-> info.nr, k |-> f.k, at |-> f.at, rel |-> info.rel, bx |-> info.bx]
     /\ last' = [H("sync", 0, "", f.k, f.at, PostOf(st')) EXCEPT !.t = tag']
     /\ hist' = Append(hist, last')
@@ -143,6 +166,7 @@ Sync(f, info) ==
 Next ==
     \/ \E p \in DOMAIN blk, ev \in {""} \cup Keys \cup (IF AllowBad THEN {Bad} ELSE {}) : Mine(p, ev)
     \/ \E b \in DOMAIN blk : Switch(b)
+    \/ \E k \in GapSet : Extend(k)
     \/ /\ PreOK = TRUE
        /\ blk[canon].num >= SyncFrom
        /\ LET info == Info IN \E f \in SyncFaults(info) : Sync(f, info)
